@@ -918,6 +918,8 @@ fn s_create_rejected() -> Result<(), String> {
         ("a 40-character column name", "New1".to_string(), vec![Column::build("K").primary_key().int16(), Column::build(long_col.as_str()).nullable().int16()]),
         ("a 40-character table name", long_tab.clone(), vec![Column::build("K").primary_key().int16()]),
         ("an enumeration whose joined text exceeds 255 characters", "New3".to_string(), vec![Column::build("K").primary_key().int16(), Column::build("E").nullable().enum_values(&many_refs).string(16)]),
+        ("an enumeration value containing ';'", "New5".to_string(), vec![Column::build("K").primary_key().int16(), Column::build("E").nullable().enum_values(&["a;b", "c"]).string(8)]),
+        ("an empty enumeration value", "New6".to_string(), vec![Column::build("K").primary_key().int16(), Column::build("E").nullable().enum_values(&[""]).string(8)]),
         ("a 70-character column name", "New4".to_string(), vec![Column::build("K").primary_key().int16(), Column::build("D".repeat(70).as_str()).nullable().int16()]),
     ];
     for (what, name, columns) in defs {
@@ -928,6 +930,14 @@ fn s_create_rejected() -> Result<(), String> {
                 // accepted: then it must be fully there, live and after reopen; drop it again
                 if !p.has_table(&name) {
                     return Err(format!("create_table with {} returns Ok but the table is missing", what));
+                }
+                // accepted: the schema must reopen as created
+                let created: Vec<Option<Vec<String>>> = p.get_table(&name).unwrap().columns().iter().map(|c| c.enum_values().map(|v| v.to_vec())).collect();
+                p.flush().map_err(|e| e.to_string())?;
+                let q = Package::open(Cursor::new(m.snapshot())).map_err(|e| format!("reopen after create_table with {} failed: {}", what, e))?;
+                let reopened: Vec<Option<Vec<String>>> = q.get_table(&name).ok_or("table missing after reopen")?.columns().iter().map(|c| c.enum_values().map(|v| v.to_vec())).collect();
+                if created != reopened {
+                    return Err(format!("create_table with {} is accepted, but the enumerations reopen as {:?} instead of {:?}", what, reopened, created));
                 }
                 p.drop_table(&name).map_err(|e| format!("dropping the table created with {} failed: {}", what, e))?;
             }
